@@ -796,6 +796,9 @@ var stackShapes = map[string]string{
 	"new":                     "function F(n){this.d=n<=0?0:1+new F(n-1).d} new F(D).d",
 	"indirect-eval":           "var g=eval; function f(n){return n<=0?0:1+g('f('+(n-1)+')')} f(D)",
 	"reenter":                 "function f(n){return n<=0?0:1+reenter('f('+(n-1)+')')} f(D)",
+	// a host function that calls back through the Go API near the limit and carries on when the call is refused
+	"hostcall":                "function leaf(){return 'leaf'} function f(n){var mine='L'+n; if(n<=0){var got=hostcall(leaf); return (mine==='L0'&&(got==='leaf'||got==='refused'))?0:NaN} var r=1+f(n-1); return mine==='L'+n?r:NaN} f(D)",
+	"hostvcall":               "function leaf(){return 'leaf'} function f(n){var mine='L'+n; if(n<=0){var got=hostvcall(leaf); return (mine==='L0'&&(got==='leaf'||got==='refused'))?0:NaN} var r=1+f(n-1); return mine==='L'+n?r:NaN} f(D)",
 	"unbounded-indirect-eval": "var g=eval; function f(){return g('f()')} f()",
 	"unbounded-reenter":       "function f(){return reenter('f()')} f()",
 	"unbounded-call-eval":     "function f(){return eval.call(null,'f()')} f()",
@@ -866,7 +869,16 @@ func stackCase(c *run.Ctx, r *gen.Rand) {
 		if d < 0 {
 			d = 0
 		}
-		runStack(c, Input{Kind: "stack", Limit: L, Depth: d, Shape: shapes[r.Intn(len(shapes))]})
+		shape := shapes[r.Intn(len(shapes))]
+		if r.Chance(1, 8) {
+			// the depth at which the host function still fits and its call back does not is one exact value below the limit
+			shape = []string{"hostcall", "hostvcall"}[r.Intn(2)]
+			d = L - r.Intn(9) + 2
+			if d < 0 {
+				d = 0
+			}
+		}
+		runStack(c, Input{Kind: "stack", Limit: L, Depth: d, Shape: shape})
 	}
 	c.Feature("kind:stack")
 }
@@ -895,7 +907,29 @@ func runStack(c *run.Ctx, in Input) {
 		}
 		return v
 	})
+	refused := func(call otto.FunctionCall, v otto.Value, err error) otto.Value {
+		if err != nil {
+			if oe, ok := err.(*otto.Error); !ok || ox.ErrClass(oe) != "RangeError" {
+				panic(call.Otto.MakeCustomError("Error", "call back failed with "+err.Error()))
+			}
+			r, _ := otto.ToValue("refused")
+			return r
+		}
+		return v
+	}
+	vm.Set("hostcall", func(call otto.FunctionCall) otto.Value {
+		v, err := call.Otto.Call("leaf", nil)
+		return refused(call, v, err)
+	})
+	vm.Set("hostvcall", func(call otto.FunctionCall) otto.Value {
+		v, err := call.Argument(0).Call(otto.UndefinedValue())
+		return refused(call, v, err)
+	})
 	out := ox.Run(vm, src)
+	if (in.Shape == "hostcall" || in.Shape == "hostvcall") && out.Panic == nil && out.Err == nil && out.Val.String() != fmt.Sprint(in.Depth) {
+		c.Fail("mismatch", "stack:"+in.Shape, in, "every frame continues in its own execution context after the host function returns: "+fmt.Sprint(in.Depth), out.String(), src)
+		return
+	}
 	if out.Panic != nil {
 		c.Fail("panic", "stack:"+in.Shape, in, "value or catchable RangeError", fmt.Sprint(out.Panic), out.Stack)
 		return
